@@ -218,6 +218,31 @@ def run_config(r, specs, judge_pair):
                    expected=list(want), observed=list(got))
     else:
         r.outcome('top=%d' % len(sh))
+        if len(specs) == 3:
+            judge_nested_pair(r, specs, sh, case)
+
+
+def judge_nested_pair(r, specs, sh, case):
+    """two candidates inside the parse group of a third (which parses its inner text): the pair rule applies to them as
+    children of the third, exactly as it does at top level"""
+    for pi, P in enumerate(specs):
+        others = [s for i, s in enumerate(specs) if i != pi]
+        if not P['inner']:
+            continue
+        if not all(P['pg'][0] <= o['iv'][0] and o['iv'][1] <= P['pg'][1] and P['iv'][0] < o['iv'][0] for o in others):
+            continue
+        want = pair_model(others[0], others[1])
+        if len(sh) != 1 or sh[0][0] != P['name']:
+            r.validated += 1
+            r.fail(case, 'nested-pair:enclosing-token-missing', expected=[P['name']], observed=repr(sh))
+            return
+        got = observe_pair(sh[0][1])
+        r.validated += 1
+        r.outcome('nested-' + got[0])
+        if got != want:
+            r.fail(case, 'nested-pair-resolution-differs-from-rule:%s->%s' % (want[0], got[0]),
+                   kf=classify_pair(others[0], others[1], want, got), expected=list(want), observed=list(got))
+        return
 
 
 def run_job(job):
